@@ -263,11 +263,19 @@ def _features(node, local_names) -> Counter:
     return c
 
 
-def exit_kind(stmt):
+def exit_kind(stmt, module=None):
     if isinstance(stmt, ast.Raise):
         exc = stmt.exc
         if isinstance(exc, ast.Call):
             exc = exc.func
+            # ``raise _make_error(args)``: a same-module private factory whose every return builds one exception type
+            if module is not None and isinstance(exc, ast.Name) and exc.id.startswith("_"):
+                g = module.functions.get(exc.id)
+                if g is not None and g.cls is None:
+                    kinds = {dotted(r.value.func) for r in ast.walk(g.node) if isinstance(r, ast.Return) and isinstance(r.value, ast.Call)}
+                    rets = [r for r in ast.walk(g.node) if isinstance(r, ast.Return)]
+                    if len(kinds) == 1 and None not in kinds and all(isinstance(r.value, ast.Call) for r in rets):
+                        return "raise " + kinds.pop()
         return "raise " + (dotted(exc) or "?") if exc is not None else "raise"
     if isinstance(stmt, ast.Return):
         v = stmt.value
@@ -356,7 +364,7 @@ def guard_instances(f: FuncInfo, kinds=("raise", "return None", "return", "conti
     out = []
     for s in cfg.stmts():
         if isinstance(s, (ast.Raise, ast.Return, ast.Continue)):
-            ek = exit_kind(s)
+            ek = exit_kind(s, module)
             if not any(ek.startswith(k) for k in kinds):
                 continue
         elif extra is not None and extra(s) and stmt_kind(s):
